@@ -176,6 +176,18 @@ class Sim:
         me.state = RUNNABLE
         self._handoff(me, forced_other=forced_other)
 
+    def yield_after_busy(self):
+        """Called by a busy (clock-advancing, non-blocking) user action: let overdue sleepers run."""
+        me = self.cur
+        due = [t for t in self.threads if t is not me and (
+            (t.state == BLOCKED and t.wake_at is not None and t.wake_at <= self.now)
+            or (t.state == RUNNABLE and not t.quiescent_wait))]
+        if not due:
+            return
+        # (a thread that was started but has not run yet reads its first deadline from the clock: left waiting across a
+        # long busy period it would arm its timer late - an artefact no real scheduler produces)
+        self.yield_now(forced_other=True)
+
     def sleep(self, us):
         if us <= 0:
             self.yield_now(forced_other=False)
